@@ -122,6 +122,11 @@ func argsFor(c, g, n, k int, big bool) (name string, args []any, natt int) {
 	case 4:
 		return "s4", []any{tag, map[string]any{"n": float64(n), "s": tag, "l": []any{1.0, "two", true, nil}, "m": map[string]any{"k": 1.5}}}, 0
 	case 5:
+		if splitMode {
+			// four frames of 137 characters each after a header of about 160: with maxPayload 300 one packet
+			// needs three polling payloads (the write path splits its batch twice)
+			return "s5", []any{tag, bin(tag, 1, 100), bin(tag, 2, 100), &S5{X: bin(tag, 3, 100)}, bin(tag, 4, 100)}, 4
+		}
 		return "s5", []any{tag, bin(tag, 1, 5), bin(tag, 2, sz), &S5{X: bin(tag, 3, 1)}, bin(tag, 4, 0)}, 4
 	default:
 		// received by a handler whose last parameter is an acknowledgement function; the emitter
@@ -214,10 +219,20 @@ func equalArg(want, got any) bool {
 // the clients that much set-up time before its body is read
 var linkDelay, slowRT time.Duration
 
+// maxBuf, when set, is the server's MaxBufferSize (announced to the client as maxPayload); splitMode gives shape s5
+// four attachments of 100 bytes
+var (
+	maxBuf    int64
+	splitMode bool
+)
+
 func newWorld(nclients int, transports []string, recovery, big bool, fastPing ...bool) (*world, error) {
 	w := &world{ss: map[int]sio.ServerSocket{}, big: big}
 	cfg := &sio.ServerConfig{}
 	cfg.ServerConnectionStateRecovery.Enabled = recovery
+	if maxBuf > 0 {
+		cfg.EIO.MaxBufferSize = maxBuf
+	}
 	if len(fastPing) > 0 && fastPing[0] {
 		cfg.EIO.PingInterval, cfg.EIO.PingTimeout = time.Second, 2*time.Second
 	}
@@ -329,12 +344,15 @@ type params struct {
 	Delay      time.Duration // one-way latency of the link (a request then takes long enough to overlap with others)
 	FastPing   bool          // heartbeats every second: they share the transport with the traffic
 	Pace       time.Duration // pause after every emit (stretches the scenario over several heartbeats)
+	MaxBuf     int64         // the server's MaxBufferSize = the client's maxPayload; with it shape s5 carries four 100-byte attachments
 }
 
 func (e *env) scenario(rng *rand.Rand, p params, cfgName string) {
 	e.scen++
 	id := e.scen
 	linkDelay, slowRT = p.Delay, p.SlowRT
+	maxBuf, splitMode = p.MaxBuf, p.MaxBuf > 0
+	defer func() { maxBuf, splitMode = 0, false }()
 	w, err := newWorld(p.Clients, p.Transports, p.Recovery, p.Big, p.FastPing)
 	linkDelay, slowRT = 0, 0
 	if err != nil {
@@ -467,6 +485,8 @@ func run(t *testing.T, which string) {
 		for _, tr := range [][]string{{"polling"}, {"websocket"}} {
 			e.scenario(rng, params{Transports: tr, Recovery: false, Clients: 1, Emitters: 3, Per: vres.Pick(80, 120), Big: false, Shapes: all, FastPing: true, Pace: 30 * time.Millisecond, SlowRT: 12 * time.Millisecond}, "c01")
 		}
+		// a small maxPayload: one packet with four attachments needs three polling payloads (two splits of one write batch)
+		e.scenario(rng, params{Transports: []string{"polling"}, Recovery: false, Clients: 1, Emitters: 2, Per: vres.Pick(20, 60), Big: false, Shapes: []int{0, 5, 3, 1}, MaxBuf: 300}, "c01")
 		if thorough {
 			for i := 0; i < 24; i++ {
 				e.scenario(rng, params{Transports: trs[i%3], Recovery: i%2 == 0, Clients: 1 + i%3, Emitters: 4, Per: 60, Big: i%3 == 0, Shapes: all}, "c01")
